@@ -69,12 +69,19 @@ fn any_schnorr_sig() -> schnorr::SchnorrSig {
     schnorr::SchnorrSig { sig, hash_ty }
 }
 use crate::LockTime;
+fn any_tweak() -> Tweak {
+    let b: [u8; 32] = kani::any();
+    match Tweak::from_inner(b) {
+        Ok(t) => t,
+        Err(e) => { core::mem::forget(e); kani::assume(false); unreachable!() }
+    }
+}
 fn fgt<T>(t: T) { core::mem::forget(t) }
 
 macro_rules! input_merge_opt {
-    ($name:ident, $field:ident, $mk:expr $(, stubs = [$($stub:meta),*])?) => {
+    ($name:ident, $field:ident, $mk:expr $(, $stub:meta)*) => {
         #[kani::proof]
-        $($(#[$stub])*)?
+        $(#[$stub])*
         fn $name() {
             let v = $mk;
             let in_a: bool = kani::any();
@@ -149,6 +156,18 @@ input_merge_opt!(c14_in_merge_asset, asset, AssetId::from_byte_array(kani::any()
 //@ harness: c14_in_merge_blinded_issuance class=F tier=thorough
 //@ clause: Input::merge keeps blinded_issuance present in either operand (identical or one-sided), order-insensitive, no other field disturbed
 input_merge_opt!(c14_in_merge_blinded_issuance, blinded_issuance, kani::any::<u8>());
+//@ harness: c14_in_merge_tap_internal_key class=F tier=thorough
+//@ clause: Input::merge keeps tap_internal_key present in either operand (identical or one-sided), order-insensitive (x-only key comparison through the assumed libsecp model)
+input_merge_opt!(c14_in_merge_tap_internal_key, tap_internal_key, any_xonly(), kani::stub(zffi::secp256k1_xonly_pubkey_cmp, model_xonly_pubkey_cmp));
+//@ harness: c14_in_merge_issuance_value_comm class=F tier=thorough
+//@ clause: Input::merge keeps issuance_value_comm present in either operand, order-insensitive (commitment built through the assumed parse model)
+input_merge_opt!(c14_in_merge_issuance_value_comm, issuance_value_comm, any_pedersen(), kani::stub(zffi::secp256k1_pedersen_commitment_parse, model_pedersen_commitment_parse));
+//@ harness: c14_in_merge_issuance_inflation_keys_comm class=F tier=thorough
+//@ clause: Input::merge keeps issuance_inflation_keys_comm present in either operand, order-insensitive
+input_merge_opt!(c14_in_merge_issuance_inflation_keys_comm, issuance_inflation_keys_comm, any_pedersen(), kani::stub(zffi::secp256k1_pedersen_commitment_parse, model_pedersen_commitment_parse));
+//@ harness: c14_in_merge_issuance_blinding_nonce class=F tier=thorough
+//@ clause: Input::merge keeps issuance_blinding_nonce present in either operand, order-insensitive (tweak range check through the exact seckey_verify model)
+input_merge_opt!(c14_in_merge_issuance_blinding_nonce, issuance_blinding_nonce, any_tweak(), kani::stub(zffi::secp256k1_ec_seckey_verify, model_ec_seckey_verify));
 
 // Fields whose value owns heap memory (scripts, byte vectors, witness stacks, transactions).  Measured: with a
 // *symbolic* presence pattern these take > 25 min each, with a concrete pattern ~1 min.  So the presence patterns are
@@ -157,8 +176,9 @@ input_merge_opt!(c14_in_merge_blinded_issuance, blinded_issuance, kani::any::<u8
 //                second operand" and "present only in the first operand"; both results equal default + f := Some(v)
 //   *_identical: both operands have the identical value
 macro_rules! input_merge_heap {
-    ($one:ident, $ident:ident, $field:ident, $mk:expr) => {
+    ($one:ident, $ident:ident, $field:ident, $mk:expr $(, $stub:meta)*) => {
         #[kani::proof]
+        $(#[$stub])*
         fn $one() {
             let v = $mk;
             let mut a1 = Input::default(); let mut b1 = Input::default();
@@ -175,6 +195,7 @@ macro_rules! input_merge_heap {
             fgt(a1); fgt(b2); fgt(want);
         }
         #[kani::proof]
+        $(#[$stub])*
         fn $ident() {
             let v = $mk;
             let mut a1 = Input::default(); let mut b1 = Input::default();
@@ -237,95 +258,120 @@ input_merge_heap!(c14_in_merge_pegin_claim_script_onesided, c14_in_merge_pegin_c
 //@ harness: c14_in_merge_pegin_witness_identical class=B tier=thorough bound="witness stack of one 1-byte element"
 //@ clause: Input::merge: identical pegin_witness in both operands merges to that value
 input_merge_heap!(c14_in_merge_pegin_witness_onesided, c14_in_merge_pegin_witness_identical, pegin_witness, wit1());
+//@ harness: c14_in_merge_issuance_value_rangeproof_onesided class=B tier=thorough bound="3-byte range proof (structural validity through the rangeproof_info model)"
+//@ clause: Input::merge: issuance_value_rangeproof present in exactly one operand is present in the result whichever operand is merged into which; no other field disturbed
+//@ harness: c14_in_merge_issuance_value_rangeproof_identical class=B tier=thorough bound="3-byte range proof"
+//@ clause: Input::merge: identical issuance_value_rangeproof in both operands merges to that value
+input_merge_heap!(c14_in_merge_issuance_value_rangeproof_onesided, c14_in_merge_issuance_value_rangeproof_identical, issuance_value_rangeproof, any_rangeproof3(), kani::stub(zffi::secp256k1_rangeproof_info, model_rangeproof_info));
+//@ harness: c14_in_merge_issuance_keys_rangeproof_onesided class=B tier=thorough bound="3-byte range proof (structural validity through the rangeproof_info model)"
+//@ clause: Input::merge: issuance_keys_rangeproof present in exactly one operand is present in the result whichever operand is merged into which; no other field disturbed
+//@ harness: c14_in_merge_issuance_keys_rangeproof_identical class=B tier=thorough bound="3-byte range proof"
+//@ clause: Input::merge: identical issuance_keys_rangeproof in both operands merges to that value
+input_merge_heap!(c14_in_merge_issuance_keys_rangeproof_onesided, c14_in_merge_issuance_keys_rangeproof_identical, issuance_keys_rangeproof, any_rangeproof3(), kani::stub(zffi::secp256k1_rangeproof_info, model_rangeproof_info));
+//@ harness: c14_in_merge_in_utxo_rangeproof_onesided class=B tier=thorough bound="3-byte range proof (structural validity through the rangeproof_info model)"
+//@ clause: Input::merge: in_utxo_rangeproof present in exactly one operand is present in the result whichever operand is merged into which; no other field disturbed
+//@ harness: c14_in_merge_in_utxo_rangeproof_identical class=B tier=thorough bound="3-byte range proof"
+//@ clause: Input::merge: identical in_utxo_rangeproof in both operands merges to that value
+input_merge_heap!(c14_in_merge_in_utxo_rangeproof_onesided, c14_in_merge_in_utxo_rangeproof_identical, in_utxo_rangeproof, any_rangeproof3(), kani::stub(zffi::secp256k1_rangeproof_info, model_rangeproof_info));
+//@ harness: c14_in_merge_in_issuance_blind_value_proof_onesided class=B tier=thorough bound="3-byte range proof (structural validity through the rangeproof_info model)"
+//@ clause: Input::merge: in_issuance_blind_value_proof present in exactly one operand is present in the result whichever operand is merged into which; no other field disturbed
+//@ harness: c14_in_merge_in_issuance_blind_value_proof_identical class=B tier=thorough bound="3-byte range proof"
+//@ clause: Input::merge: identical in_issuance_blind_value_proof in both operands merges to that value
+input_merge_heap!(c14_in_merge_in_issuance_blind_value_proof_onesided, c14_in_merge_in_issuance_blind_value_proof_identical, in_issuance_blind_value_proof, any_rangeproof3(), kani::stub(zffi::secp256k1_rangeproof_info, model_rangeproof_info));
+//@ harness: c14_in_merge_in_issuance_blind_inflation_keys_proof_onesided class=B tier=thorough bound="3-byte range proof (structural validity through the rangeproof_info model)"
+//@ clause: Input::merge: in_issuance_blind_inflation_keys_proof present in exactly one operand is present in the result whichever operand is merged into which; no other field disturbed
+//@ harness: c14_in_merge_in_issuance_blind_inflation_keys_proof_identical class=B tier=thorough bound="3-byte range proof"
+//@ clause: Input::merge: identical in_issuance_blind_inflation_keys_proof in both operands merges to that value
+input_merge_heap!(c14_in_merge_in_issuance_blind_inflation_keys_proof_onesided, c14_in_merge_in_issuance_blind_inflation_keys_proof_identical, in_issuance_blind_inflation_keys_proof, any_rangeproof3(), kani::stub(zffi::secp256k1_rangeproof_info, model_rangeproof_info));
+//@ harness: c14_in_merge_blind_value_proof_onesided class=B tier=thorough bound="3-byte range proof (structural validity through the rangeproof_info model)"
+//@ clause: Input::merge: blind_value_proof present in exactly one operand is present in the result whichever operand is merged into which; no other field disturbed
+//@ harness: c14_in_merge_blind_value_proof_identical class=B tier=thorough bound="3-byte range proof"
+//@ clause: Input::merge: identical blind_value_proof in both operands merges to that value
+input_merge_heap!(c14_in_merge_blind_value_proof_onesided, c14_in_merge_blind_value_proof_identical, blind_value_proof, any_rangeproof3(), kani::stub(zffi::secp256k1_rangeproof_info, model_rangeproof_info));
+// not covered: blind_asset_proof (SurjectionProof is an 8 KB FFI struct; not attempted)
 
-// ---- BTreeMap fields: one entry per operand ----
-// Oracle (property text): the result contains every entry of either operand, nothing else, in both merge orders.
-// Measured: with fully symbolic keys (symbolic relative order => symbolic B-tree slot positions for the heap-owning
-// values) the harness does not finish in 15 min.  So the *leading* key byte is concrete and different in the two
-// operands (the order of the two keys is then concrete; merging in both directions exercises both insertion orders),
-// every other key byte and the values are symbolic.  `#[kani::unwind(5)]`: the consuming B-tree iterator inside
-// `extend(other.map)` descends with `loop { match node.force() { Leaf => return, Internal => descend } }`, which CBMC
-// unwinds forever without a bound (measured); with the bound the unwinding assertion proves the depth is 0/1.  `*_identical`: both operands hold the same entry.
-macro_rules! input_merge_map {
-    ($dis:ident, $ident:ident, $field:ident, $mkk:expr, $mkv:expr) => {
+// ---- BTreeMap fields ----
+// Oracle (property text): every entry of either operand is in the result, nothing else, whichever operand is merged
+// into which.  AFFORDABLE SHAPE (measured): exactly one operand holds ONE entry, the other operand's map is empty; both
+// merge directions.  Two-entry unions (one entry per operand, or the same entry in both) were tried with symbolic and
+// with concretely ordered keys and did not finish / exhausted memory in 10-15 min each (B-tree insertion into a
+// non-empty leaf), so unions of non-empty maps are NOT covered here.
+// `#[kani::unwind(3)]`: the consuming B-tree iterator inside `extend(other.map)` descends with
+// `loop { match node.force() { Leaf => return, Internal => descend } }`, which CBMC unwinds forever without a bound
+// (measured); with the bound, the unwinding assertion proves that the depth is 0.
+macro_rules! input_merge_map1 {
+    ($name:ident, $field:ident, $mkk:expr, $mkv:expr $(, $stub:meta)*) => {
         #[kani::proof]
-        #[kani::unwind(5)]
-        fn $dis() {
-            let mk = $mkk;
-            let (k1, k2) = (mk(0x21u8), mk(0x7eu8));
-            let v1: Vec<u8> = $mkv; let v2: Vec<u8> = $mkv;
+        #[kani::unwind(3)]
+        $(#[$stub])*
+        fn $name() {
+            let k = $mkk; let v = $mkv;
             let mut a1 = Input::default(); let mut b1 = Input::default();
-            let mut a2 = Input::default(); let mut b2 = Input::default();
-            a1.$field.insert(k1.clone(), v1.clone()); a2.$field.insert(k1.clone(), v1.clone());
-            b1.$field.insert(k2.clone(), v2.clone()); b2.$field.insert(k2.clone(), v2.clone());
+            let a2 = Input::default(); let mut b2 = Input::default();
+            b1.$field.insert(k.clone(), v.clone());
+            b2.$field.insert(k.clone(), v.clone());
             match a1.merge(b1) { Ok(()) => {}, Err(e) => { fgt(e); assert!(false, "merge of conflict-free operands failed"); } }
             match b2.merge(a2) { Ok(()) => {}, Err(e) => { fgt(e); assert!(false, "merge of conflict-free operands failed"); } }
             kani::cover!(true);
-            assert!(a1.$field.len() == 2 && b2.$field.len() == 2, "union has exactly the entries of both operands");
-            assert!(a1.$field.get(&k1) == Some(&v1) && a1.$field.get(&k2) == Some(&v2), "merge(a,b) holds both entries");
-            assert!(b2.$field.get(&k1) == Some(&v1) && b2.$field.get(&k2) == Some(&v2), "merge(b,a) holds both entries");
-            fgt(a1); fgt(b2);
-        }
-        #[kani::proof]
-        #[kani::unwind(5)]
-        fn $ident() {
-            let mk = $mkk;
-            let k1 = mk(kani::any());
-            let v1: Vec<u8> = $mkv;
-            let mut a1 = Input::default(); let mut b1 = Input::default();
-            a1.$field.insert(k1.clone(), v1.clone());
-            b1.$field.insert(k1.clone(), v1.clone());
-            match a1.merge(b1) { Ok(()) => {}, Err(e) => { fgt(e); assert!(false, "merge of identical additions failed"); } }
-            kani::cover!(true);
-            assert!(a1.$field.len() == 1 && a1.$field.get(&k1) == Some(&v1), "identical entries merge to one");
-            fgt(a1);
+            assert!(a1.$field.len() == 1 && b2.$field.len() == 1, "exactly the entry of the operand that had one");
+            assert!(a1.$field.iter().next() == Some((&k, &v)), "entry present only in the second operand is in the result");
+            assert!(b2.$field.iter().next() == Some((&k, &v)), "entry present only in the first operand is kept");
+            fgt(a1); fgt(b2); fgt(k); fgt(v);
         }
     };
 }
-fn raw_key1(t: u8) -> raw::Key {
+fn raw_key1() -> raw::Key {
     let b: [u8; 1] = kani::any();
-    raw::Key { type_value: t, key: b.to_vec() }
+    raw::Key { type_value: kani::any(), key: b.to_vec() }
 }
-fn prop_key1(p0: u8) -> raw::ProprietaryKey {
+fn prop_key1() -> raw::ProprietaryKey {
+    let p: [u8; 1] = kani::any();
     let k: [u8; 1] = kani::any();
-    raw::ProprietaryKey { prefix: vec![p0], subtype: kani::any(), key: k.to_vec() }
+    raw::ProprietaryKey { prefix: p.to_vec(), subtype: kani::any(), key: k.to_vec() }
 }
 fn val1() -> Vec<u8> {
     let b: [u8; 1] = kani::any();
     b.to_vec()
 }
-fn arr20(lead: u8) -> [u8; 20] { let mut a: [u8; 20] = kani::any(); a[0] = lead; a }
-fn arr32(lead: u8) -> [u8; 32] { let mut a: [u8; 32] = kani::any(); a[0] = lead; a }
-//@ harness: c14_in_merge_unknown_disjoint class=B tier=quick bound="one entry per operand; key = type byte (0x21 / 0x7e in the disjoint case, symbolic in the identical case) + 1 symbolic key byte; 1-byte values"
-//@ clause: Input::merge: the `unknown` pairs of the result are the union of the operands' entries (disjoint keys), in both merge orders
-//@ harness: c14_in_merge_unknown_identical class=B tier=thorough bound="the same single entry in both operands"
-//@ clause: Input::merge: an identical entry of the `unknown` pairs in both operands appears once in the result
-input_merge_map!(c14_in_merge_unknown_disjoint, c14_in_merge_unknown_identical, unknown, raw_key1, val1());
-//@ harness: c14_in_merge_proprietary_disjoint class=B tier=quick bound="one entry per operand; 1-byte prefix (concrete, different per operand), symbolic subtype, 1 symbolic key byte; 1-byte values"
-//@ clause: Input::merge: the proprietary pairs of the result are the union of the operands' entries (disjoint keys), in both merge orders
-//@ harness: c14_in_merge_proprietary_identical class=B tier=thorough bound="the same single entry in both operands"
-//@ clause: Input::merge: an identical entry of the proprietary pairs in both operands appears once in the result
-input_merge_map!(c14_in_merge_proprietary_disjoint, c14_in_merge_proprietary_identical, proprietary, prop_key1, val1());
-//@ harness: c14_in_merge_ripemd160_preimages_disjoint class=B tier=thorough bound="one entry per operand; 20-byte hash keys, first byte concrete, rest symbolic (merge does not check the hash/preimage relation); 1-byte values"
-//@ clause: Input::merge: RIPEMD160 preimages of the result are the union of the operands' entries (disjoint keys), in both merge orders
-//@ harness: c14_in_merge_ripemd160_preimages_identical class=B tier=thorough bound="the same single entry in both operands"
-//@ clause: Input::merge: an identical entry of RIPEMD160 preimages in both operands appears once in the result
-input_merge_map!(c14_in_merge_ripemd160_preimages_disjoint, c14_in_merge_ripemd160_preimages_identical, ripemd160_preimages, |l| ripemd160::Hash::from_byte_array(arr20(l)), val1());
-//@ harness: c14_in_merge_sha256_preimages_disjoint class=B tier=quick bound="one entry per operand; 32-byte hash keys, first byte concrete, rest symbolic; 1-byte values"
-//@ clause: Input::merge: SHA256 preimages of the result are the union of the operands' entries (disjoint keys), in both merge orders
-//@ harness: c14_in_merge_sha256_preimages_identical class=B tier=thorough bound="the same single entry in both operands"
-//@ clause: Input::merge: an identical entry of SHA256 preimages in both operands appears once in the result
-input_merge_map!(c14_in_merge_sha256_preimages_disjoint, c14_in_merge_sha256_preimages_identical, sha256_preimages, |l| sha256::Hash::from_byte_array(arr32(l)), val1());
-//@ harness: c14_in_merge_hash160_preimages_disjoint class=B tier=thorough bound="one entry per operand; 20-byte hash keys, first byte concrete, rest symbolic; 1-byte values"
-//@ clause: Input::merge: HASH160 preimages of the result are the union of the operands' entries (disjoint keys), in both merge orders
-//@ harness: c14_in_merge_hash160_preimages_identical class=B tier=thorough bound="the same single entry in both operands"
-//@ clause: Input::merge: an identical entry of HASH160 preimages in both operands appears once in the result
-input_merge_map!(c14_in_merge_hash160_preimages_disjoint, c14_in_merge_hash160_preimages_identical, hash160_preimages, |l| hash160::Hash::from_byte_array(arr20(l)), val1());
-//@ harness: c14_in_merge_hash256_preimages_disjoint class=B tier=thorough bound="one entry per operand; 32-byte hash keys, first byte concrete, rest symbolic; 1-byte values"
-//@ clause: Input::merge: HASH256 preimages of the result are the union of the operands' entries (disjoint keys), in both merge orders
-//@ harness: c14_in_merge_hash256_preimages_identical class=B tier=thorough bound="the same single entry in both operands"
-//@ clause: Input::merge: an identical entry of HASH256 preimages in both operands appears once in the result
-input_merge_map!(c14_in_merge_hash256_preimages_disjoint, c14_in_merge_hash256_preimages_identical, hash256_preimages, |l| sha256d::Hash::from_byte_array(arr32(l)), val1());
+fn any_btc_pubkey() -> PublicKey {
+    PublicKey { inner: any_secp_pubkey(), compressed: kani::any() }
+}
+fn key_source1() -> KeySource {
+    let f: [u8; 4] = kani::any();
+    let c: u32 = kani::any();
+    (bitcoin::bip32::Fingerprint::from(f), bitcoin::bip32::DerivationPath::from(vec![bitcoin::bip32::ChildNumber::from(c)]))
+}
+//@ harness: c14_in_merge_unknown_onesided class=B tier=quick bound="one entry in one operand, the other operand's map empty; symbolic type byte + 1 symbolic key byte; 1-byte value"
+//@ clause: Input::merge: a unknown pair present in exactly one operand is present (alone) in the result whichever operand is merged into which
+input_merge_map1!(c14_in_merge_unknown_onesided, unknown, raw_key1(), val1());
+//@ harness: c14_in_merge_proprietary_onesided class=B tier=quick bound="one entry in one operand, the other operand's map empty; 1-byte prefix, symbolic subtype, 1-byte key; 1-byte value"
+//@ clause: Input::merge: a proprietary pair present in exactly one operand is present (alone) in the result whichever operand is merged into which
+input_merge_map1!(c14_in_merge_proprietary_onesided, proprietary, prop_key1(), val1());
+//@ harness: c14_in_merge_partial_sigs_onesided class=B tier=quick bound="one entry in one operand, the other operand's map empty; symbolic public key (libsecp comparison through the assumed model); 1-byte signature"
+//@ clause: Input::merge: a partial signature present in exactly one operand is present (alone) in the result whichever operand is merged into which
+input_merge_map1!(c14_in_merge_partial_sigs_onesided, partial_sigs, any_btc_pubkey(), val1(), kani::stub(zffi::secp256k1_ec_pubkey_cmp, model_ec_pubkey_cmp));
+//@ harness: c14_in_merge_bip32_derivation_onesided class=B tier=thorough bound="one entry in one operand, the other operand's map empty; symbolic public key; key source with a 1-element path"
+//@ clause: Input::merge: a BIP-32 key derivation present in exactly one operand is present (alone) in the result whichever operand is merged into which
+input_merge_map1!(c14_in_merge_bip32_derivation_onesided, bip32_derivation, any_btc_pubkey(), key_source1(), kani::stub(zffi::secp256k1_ec_pubkey_cmp, model_ec_pubkey_cmp));
+//@ harness: c14_in_merge_ripemd160_preimages_onesided class=B tier=thorough bound="one entry in one operand, the other operand's map empty; symbolic 20-byte hash key (merge does not check the hash/preimage relation); 1-byte preimage"
+//@ clause: Input::merge: a RIPEMD160 preimage present in exactly one operand is present (alone) in the result whichever operand is merged into which
+input_merge_map1!(c14_in_merge_ripemd160_preimages_onesided, ripemd160_preimages, ripemd160::Hash::from_byte_array(kani::any()), val1());
+//@ harness: c14_in_merge_sha256_preimages_onesided class=B tier=quick bound="one entry in one operand, the other operand's map empty; symbolic 32-byte hash key; 1-byte preimage"
+//@ clause: Input::merge: a SHA256 preimage present in exactly one operand is present (alone) in the result whichever operand is merged into which
+input_merge_map1!(c14_in_merge_sha256_preimages_onesided, sha256_preimages, sha256::Hash::from_byte_array(kani::any()), val1());
+//@ harness: c14_in_merge_hash160_preimages_onesided class=B tier=thorough bound="one entry in one operand, the other operand's map empty; symbolic 20-byte hash key; 1-byte preimage"
+//@ clause: Input::merge: a HASH160 preimage present in exactly one operand is present (alone) in the result whichever operand is merged into which
+input_merge_map1!(c14_in_merge_hash160_preimages_onesided, hash160_preimages, hash160::Hash::from_byte_array(kani::any()), val1());
+//@ harness: c14_in_merge_hash256_preimages_onesided class=B tier=thorough bound="one entry in one operand, the other operand's map empty; symbolic 32-byte hash key; 1-byte preimage"
+//@ clause: Input::merge: a HASH256 preimage present in exactly one operand is present (alone) in the result whichever operand is merged into which
+input_merge_map1!(c14_in_merge_hash256_preimages_onesided, hash256_preimages, sha256d::Hash::from_byte_array(kani::any()), val1());
+//@ harness: c14_in_merge_tap_script_sigs_onesided class=B tier=quick bound="one entry in one operand, the other operand's map empty; symbolic x-only key (comparison through the assumed model) and leaf hash; symbolic signature"
+//@ clause: Input::merge: a taproot script-spend signature present in exactly one operand is present (alone) in the result whichever operand is merged into which
+input_merge_map1!(c14_in_merge_tap_script_sigs_onesided, tap_script_sigs, (any_xonly(), TapLeafHash::from_byte_array(kani::any())), any_schnorr_sig(), kani::stub(zffi::secp256k1_xonly_pubkey_cmp, model_xonly_pubkey_cmp));
+//@ harness: c14_in_merge_tap_key_origins_onesided class=B tier=thorough bound="one entry in one operand, the other operand's map empty; symbolic x-only key; one leaf hash, key source with a 1-element path"
+//@ clause: Input::merge: a taproot key origin present in exactly one operand is present (alone) in the result whichever operand is merged into which
+input_merge_map1!(c14_in_merge_tap_key_origins_onesided, tap_key_origins, any_xonly(), (vec![TapLeafHash::from_byte_array(kani::any())], key_source1()), kani::stub(zffi::secp256k1_xonly_pubkey_cmp, model_xonly_pubkey_cmp));
+// not covered: tap_scripts (ControlBlock keys: merkle branch + x-only key; not attempted)
 
 // ---- interaction of the two UTXO fields (candidate disagreement found while reading Input::merge) ----
 //@ harness: c14_in_merge_utxo_pair_order class=B tier=quick bound="non_witness_utxo = empty transaction with symbolic version/lock time; witness_utxo = explicit TxOut"
